@@ -46,7 +46,9 @@ def rule_sequential(ctx, rep):
     if set(calls) == set(order):
         ok1 = has_event(fa.state_at(calls["process_dependencies"]), "EV:apply")
         ok2 = has_event(fa.state_at(calls["log_changes"]), "EV:deps")
-        recv_ok = unparse(calls["apply"].func).startswith(var + ".") and var + ".id" in unparse(calls["process_dependencies"])
+        r_ac = ctx.resolver(ac)
+        dep_args = " ".join(unparse(r_ac.expand(a)) for a in list(calls["process_dependencies"].args) + [k.value for k in calls["process_dependencies"].keywords])
+        recv_ok = unparse(calls["apply"].func).startswith(var + ".") and var + ".id" in dep_args
         rep.check("R-SEQUENTIAL", ac.qname, ac.loc(calls["process_dependencies"]), ok1 and ok2 and recv_ok, "apply->deps->log",
                   "the dependency update / logging of a codemod does not follow its own apply() on every path (another codemod's state could be consumed)")
     threads = [n for n in walk_no_nested(ac.node) if isinstance(n, ast.Call) and (last_attr(n.func) in ("submit", "Thread", "start", "create_task", "ThreadPoolExecutor", "ProcessPoolExecutor"))]
@@ -117,7 +119,13 @@ def rule_state_keyed(ctx, rep):
     for meth, (caller_q, want) in wanted.items():
         caller = ctx.prog.func(caller_q)
         calls = [n for n in walk_no_nested(caller.node) if isinstance(n, ast.Call) and last_attr(n.func) == meth]
-        ok = bool(calls) and all(c2.args and (unparse(c2.args[0]) == want if want else unparse(c2.args[0]).endswith(".id")) for c2 in calls)
+        r_c = ctx.resolver(caller)
+
+        def first_arg(c2):
+            a = c2.args[0] if c2.args else (c2.keywords[0].value if c2.keywords else None)
+            return unparse(r_c.expand(a)) if a is not None else ""
+
+        ok = bool(calls) and all((first_arg(c2) == want if want else first_arg(c2).endswith(".id")) for c2 in calls)
         rep.check("R-STATE-KEYED", caller.qname, caller.loc(calls[0]) if calls else caller.loc(), ok, f"{meth}(id)",
                   f"{meth} is not called with the id of the codemod being handled")
 
@@ -234,6 +242,8 @@ def rule_runwide_state(ctx, rep):
                         how = par.attr
             elif isinstance(par, (ast.Assign, ast.AnnAssign)) and (n in getattr(par, "targets", []) or getattr(par, "target", None) is n):
                 how = "rebind"
+            elif isinstance(par, ast.Compare) and len(par.ops) == 1 and isinstance(par.ops[0], (ast.In, ast.NotIn)) and par.comparators[0] is n:
+                key, how = par.left, "membership"  # `<id> in container`: a keyed look-up like .get(<id>)
             else:
                 how = "other:" + type(par).__name__
             if how == "aggregate-read":
